@@ -78,7 +78,7 @@ var c12Lit = core.Mon(c12, "literal-value", func(w *core.W, c *LitCase) {
 	case 2:
 		src := c.Lit
 		if c.Embed != "" {
-			src = fmt.Sprintf(c.Embed, c.Lit)
+			src = strings.ReplaceAll(c.Embed, "%s", c.Lit)
 			w.Count("embedded_malformed")
 		}
 		var err error
@@ -110,7 +110,7 @@ var c12Lit = core.Mon(c12, "literal-value", func(w *core.W, c *LitCase) {
 	}
 	src := "[" + c.Lit + "]"
 	if litValueEmbeds[c.Embed] {
-		src = "[" + fmt.Sprintf(c.Embed, c.Lit) + "]"
+		src = "[" + strings.ReplaceAll(c.Embed, "%s", c.Lit) + "]"
 	}
 	v, err, panicked, pv := evalArray1(src, nil)
 	if panicked || err != nil {
@@ -268,10 +268,12 @@ var c12Pair = core.Mon(c12, "literal-sequence", func(w *core.W, c *LitPairCase) 
 
 var litAlphabet = []string{"0", "1", "9", ".", "e", "E", "+", "-", "_", "x"}
 
-var litEmbeds = []string{"[%s]", "f(%s)", "%s + 1", "1 + %s", "a ? %s : 1", "-%s", "(%s).k", "f(1, %s)", "a ? 1 : %s", "$v = %s", "typeof %s", "(%s)", "true ? %s : 0", "(0, %s)"}
+var litEmbeds = []string{"[%s]", "f(%s)", "%s + 1", "1 + %s", "a ? %s : 1", "-%s", "(%s).k", "f(1, %s)", "a ? 1 : %s", "$v = %s", "typeof %s", "(%s)", "true ? %s : 0", "(0, %s)",
+	// set tightly: the literal directly behind '?', ':', ',', an operator or a bracket
+	"(true?%s:0)", "(false?0:%s)", "(0,%s)", "(null??%s)", "(%s)", "(true?%s:%s)", "a?%s:1", "[1,%s]", "f(%s,%s)", "1+%s", "!%s", "-%s", "1-%s", "a&&%s", "a||%s", "a??%s", "a?1:%s"}
 
 // embeddings that leave the literal's value as the element's value
-var litValueEmbeds = map[string]bool{"(%s)": true, "true ? %s : 0": true, "(0, %s)": true, "$v = %s": true}
+var litValueEmbeds = map[string]bool{"(%s)": true, "true ? %s : 0": true, "(0, %s)": true, "$v = %s": true, "(true?%s:0)": true, "(false?0:%s)": true, "(0,%s)": true, "(null??%s)": true, "(true?%s:%s)": true}
 
 // LitFollowCase: what stands immediately behind a literal. White space and line breaks of the ES sets end the literal and
 // leave its value alone; an identifier character (of the ES5 classes, far beyond ASCII) makes the text a syntax error.
